@@ -20,8 +20,9 @@ PROPERTY = 'C06'
 LEVEL = 'exploration'
 TARGET = 'checks.c06:run'
 
-SCALARS = [2.0, -0.5, 4.0, -1.0, 1e-3]
-DIAG_VALUES = {'pos': [2.0, 4.0, 0.5, 8.0, 3.0, 5.0], 'neg': [-2.0, 4.0, -0.5, 8.0, -3.0, 5.0], 'zero': [2.0, 0.0, -0.5, 0.0, 3.0, 0.0], 'allzero': [0.0] * 6}
+SCALARS = [2.0, -0.5, 4.0, -1.0, 1e-3, 3e-8]
+DIAG_VALUES = {'pos': [2.0, 4.0, 0.5, 8.0, 3.0, 5.0], 'neg': [-2.0, 4.0, -0.5, 8.0, -3.0, 5.0], 'zero': [2.0, 0.0, -0.5, 0.0, 3.0, 0.0], 'allzero': [0.0] * 6,
+               'tiny': [3e-8, 2.0, -1e-10, 0.0, 6e-8, 1e-20]}
 DIAG_LAYOUTS = [  # (leaf shape, value shape, axis_destination)
     ((2,), (2,), -1), ((3,), (3,), 0), ((2, 3), (3,), -1), ((2, 3), (2,), 0), ((2, 3), (2, 3), 0), ((2, 3), (2, 3), (0, 1)),
     ((2, 3), (3, 2), (1, 0)), ((2, 1, 3), (2,), 0), ((2, 1, 3), (3,), -1), ((2, 1, 3), (2, 1), 0), ((2, 1, 3), (1, 3), -1),
@@ -223,11 +224,17 @@ def check_closed(case, violations):
     if not np.all(np.isfinite(Mi)):
         violations.append({'kind': 'nonfinite-inverse', 'case': case, 'detail': f'A.I has non-finite entries: {P.mat_summary(Mi, 36)}'})
         return
-    singular = bool(np.any(np.all(M == 0, axis=0))) or np.linalg.matrix_rank(M) < M.shape[0]
+    singular = bool(np.any(np.all(M == 0, axis=0)))
     n = M.shape[0]
     if singular:
-        ref = np.linalg.pinv(M)
-        if not P.close(Mi, ref, tol):
+        if case['kind'] in ('diag', 'diag_tree', 'blockdiag') and np.array_equal(M, np.diag(np.diag(M))):
+            dd = np.diag(M)
+            ref = np.diag(np.array([0.0 if v == 0 else 1.0 / v for v in dd]))   # element-wise: exact for any magnitude
+            ok = bool(np.allclose(Mi, ref, rtol=1e-12 if f64 else 2e-5, atol=1e-30))   # relative per entry (magnitudes span 1e-20..1e20)
+        else:
+            ref = np.linalg.pinv(M)
+            ok = P.close(Mi, ref, tol)
+        if not ok:
             violations.append({'kind': 'not-the-pseudo-inverse', 'case': case, 'detail': f'A.I = {P.mat_summary(Mi, 36)} but pinv(A) = {P.mat_summary(ref, 36)}'})
     else:
         if not P.close(Mi @ M, np.eye(n), tol) or not P.close(M @ Mi, np.eye(n), tol):
